@@ -115,6 +115,20 @@ Theorem html_script_double_escape :
 Proof. exact html_script_end_proof. Qed.
 Print Assumptions html_script_double_escape.
 
+(* C09 — raw text, exact end (full, no template delimiters): for every raw-text element other than plaintext the content
+   is ONE Text token that ends exactly at cursor + Script.raw_len: the first "</name" + tag end (script: outside
+   "<!--" sections, as in html_script_double_escape), or the end of input. *)
+Theorem html_rawtext_end_exact :
+  forall d l ty tk l', html_inv d l -> intag l = false -> rawtag l <> 0 -> rawtag l <> html_hash_Plaintext ->
+    next no_tmpl l = Ok (ty, tk, l') ->
+    let e := lpos (lz l) + raw_len (rawtag l) (skipz (lpos (lz l)) d) in
+    lpos (lz l) <= e <= len d /\
+    (lpos (lz l) < e ->
+       ty = TextT /\ tk = Some (mkSl (lpos (lz l)) (e - lpos (lz l))) /\ ltext l' = tk /\
+       rawtag l' = 0 /\ intag l' = false /\ lpos (lz l') = e).
+Proof. exact html_raw_end_proof. Qed.
+Print Assumptions html_rawtext_end_exact.
+
 (* C09 — templates, text: a delimited region [p,q) that starts where the lexer is in text is returned as exactly
    one Template token, HasTemplate() = true (is_region: q is the end of the first closing delimiter outside quoted
    strings, or the end of input). *)
@@ -223,8 +237,15 @@ Print Assumptions html_template_rawtext_converse.
    (one per tag part; raw content as ONE Text token; an svg/math subtree as ONE SVG/Math token), with the right
    type, the bytes of the construct, lower-cased Text()/AttrKey() and verbatim AttrVal(), followed by the
    end-of-input report.  [observe] reads type, token bytes, Text() and (for attributes) AttrVal() after each call.
-   NOT covered by this theorem (correspondence + Go oracle only): raw
-   content that is empty or contains "</" (html_rawtext_never_markup says where such content ends), unterminated constructs, text containing a '<' that opens nothing, names containing '/', templates. *)
+   Constructs cut by the end of input (only as the last item; WfDoc.ITextLt and the ICut items): text ending with "<" or "</"
+   (the '<' belongs to the text); "<!--" body, "<![CDATA[" body, "<!doctype" after: one Comment / Text / Doctype token
+   to the end; "<?" / "<!" / "</"+non-letter body: one bogus Comment; "</" name ws: one EndTag; "<" name attributes:
+   StartTag and the Attribute tokens; a raw-text element (script with its double-escape rules) whose content has no
+   end tag (Script.raw_len = length): the tag tokens and ONE Text to the end.  In each case the end-of-input report follows.
+   NOT covered by this theorem (correspondence + Go oracle only): cuts inside an svg / math / xml element, inside a
+   quoted attribute value and inside the whitespace at the end of a tag; raw content that is empty (html_rawtext_end_exact
+   says where raw content ends in general); text containing a '<' that opens nothing (other than at the end of input);
+   names containing '/'; templates. *)
 Theorem html_wellformed_tokens_partial :
   forall items, wf_doc items ->
     exists tr, run no_tmpl (length (doc_obs items) + 1) (new_lexer (doc_bytes items)) = Ok tr /\
